@@ -88,6 +88,7 @@
     `_parse_parameter` → `_parse_type` / `_parse_cv_ptr_or_fn`): exactly ONE `on_function` with one
     parameter per item, in order, each with its own name and the type ITS declarator denotes.
 -/
+import CxxModel.Theorems.DeclGenItems
 import CxxModel.Tables
 import CxxModel.Props.C04
 import CxxModel.SimpleFold
@@ -607,6 +608,41 @@ theorem C01_variable_sequence (env : Env) (hc : env.cfg = genLexCfg) (hnf : env.
       wF.stack = blkF :: rest ∧ blkF.hdr = blk.hdr ∧ blkF.id = blk.id ∧
       wF.delivered = w.delivered + vs.length ∧ wF.anon = w.anon ∧ wF.muted = false ∧ wF.nextId = w.nextId :=
   parse_variable_sequence env (by rw [hc]; exact gen_rules_progress) hnf F D rest vs w b bE bEE blk hst hk hmu hsig hvs heof hF hn
+
+
+section
+open P
+
+/-- **`S ptr-ops f ( parameters ) ;` through `parse()`'s loop for ANY return-type specifier `S` (`TypeSpecR`) and ANY
+    parameter list `_parse_parameters` decodes**: exactly ONE `on_function` with the return type the chain denotes over
+    the type `S` denotes and exactly those parameters -/
+theorem C01_function_general (env : Env) (hp : RulesProgress env.cfg = true) (F D : Nat) (w : World)
+    (toks : List Tok) (first : Tok) (trest : List Tok) (segs : List PQSeg) (cst vol : Bool) (ops : List Tok) (x op : Tok) (plist : List Param) (semi : Tok) (d1 : DType) (b1 b0 bmid bx bo bc b' : Buf)
+    (blk : Block) (rest : List Block) (hstack : w.stack = blk :: rest) (hk : blk.hdr.kind ≠ .cls)
+    (hmu : w.muted = false) (hfa : ¬ env.faultAt = some w.delivered)
+    (hspec : TypeSpecR env F (D + 1 + 1) toks segs cst vol) (htoks : toks = first :: trest) (hfirst : specFirst first.type = true)
+    (htok : tokenEofOk env.cfg w.buf = .ok (some first, b1))
+    (hy0 : Yields env.cfg b1 trest b0)
+    (hops : opsHeadOk ops = true) (hopsv : ∀ o ∈ ops, o.value ≠ "auto")
+    (hy : Yields env.cfg b0 ops bmid)
+    (ha : applyPtrOps (.type (.mk segs none false) cst vol) (ops.map (·.type)) = some d1)
+    (htx : tokenEofOk env.cfg bmid = .ok (some x, bx)) (hx : x.type = "NAME") (hxv : identVal x.value = true)
+    (hto : tokenEofOk env.cfg bx = .ok (some op, bo)) (hop : op.type = "(")
+    (hparams : ∀ W : World, W.buf = bo → ∃ w7, interp env (parseParametersStep F (core F (D + 1 + 1 + 1)) true) W = (w7, .ok (plist, false, [])) ∧
+      SameButLog W w7 ∧ w7.buf = bc)
+    (hsemi : tokenEofOk env.cfg bc = .ok (some semi, b')) (hs : semi.type = ";")
+    (hF : ops.length + 2 ≤ F) :
+    ∃ (d : Option String) (bD : Buf) (w7 : World) (ct : CTok) (ev : Event),
+      getDoxygen env.cfg env.mcRe w.buf = .ok (d, bD) ∧
+      interp env (mainBody F (core F (D + 1 + 1 + 1 + 1)) none) w = (w7, .ok (.inl none)) ∧
+      w7.buf = b' ∧ ct.value = first.value ∧ w7.stack = { blk with loc := .tok ct.sidx } :: rest ∧
+      w7.events = w.events ++ [ev] ∧ ev.kind = .item (.function { plainFunction x d1 d with
+        parameters := plist }) ∧
+      ev.stateId = blk.id ∧ ev.parentId = rest.head?.map (·.id) ∧
+      w7.delivered = w.delivered + 1 ∧ w7.anon = w.anon ∧ w7.muted = false ∧ w7.nextId = w.nextId :=
+  toplevel_function_gen env hp F D w toks first trest segs cst vol ops x op plist semi d1 b1 b0 bmid bx bo bc b' blk rest hstack hk hmu hfa hspec htoks hfirst htok hy0 hops hopsv hy ha htx hx hxv hto hop hparams hsemi hs hF
+
+end
 
 /-! non-vacuity of `C01_whole_source`: the token sequence of
     `namespace a { T x ; ; class C { T f ; public : T g ; } ; }` is an `Item` (a namespace holding a
